@@ -149,7 +149,7 @@ CHECKS["C09"] = dict(level="proof", engine="pyvc",
          "integrate's own contract proved in the same run, status 2) gives: last record = the terminal event, all earlier records of the call non-terminal and not later, last recorded time within 8 eps of the event time and never "
          "beyond it, buffers trimmed to it, status 2 reported as success with its message; otherwise status 1 and the run ends at its target; the post-state satisfies the representation invariant (trajectory + step interpolants) "
          "the next call requires, on normal and exceptional exit.",
-    note="'last state on the event surface', dense output kept, infinite targets and continuation results are bounded native clauses; continuing with the same terminal event still monitored is known finding F27; A1",
+    note="'last state on the event surface' and continuation results are bounded native clauses; dense output kept and infinite targets (both directions) are verified for n = 1 in the quick tier, mixes with n = 2 in the thorough tier; continuing with the same terminal event still monitored is known finding F27; A1",
     technique="contract + loop invariant on the real integrate with the recursive call replaced by its own proved contract, z3",
     design_ref="DESIGN.md section 10 (events)")
 CHECKS["C15"] = dict(level="proof", engine="pyvc",
